@@ -70,6 +70,10 @@ func verifObserve(tag string, v any) {
 	}
 }
 func verifCover(tag string) {}
+
+// verifEnvFixed(true): from here on the engine's environment stubs (math/rand) return one fixed
+// legal value instead of every possible one - for code whose result the harness does not look at.
+func verifEnvFixed(on bool) {}
 func verifEpoch()           {}
 func verifParam(name string, def int) int {
 	if v, ok := verifCur.Params[name]; ok {
